@@ -15,7 +15,7 @@ from vlib import *
 # recorded fields the specification deliberately does not constrain
 ALLOW_UNCONSTRAINED = {
     # generator family: how a call was made / annotations
-    "upd.f", "fix.usz", "hashstream.reads", "hashstream.mr", "hashstream.rs", "stream.g", "file.g",
+    "upd.f", "realzeros.f", "fix.usz", "hashstream.reads", "hashstream.mr", "hashstream.rs", "stream.g", "file.g",
     # parse error kind / offset: the property names the offending PART only (reported as drift, see DESIGN)
     "parse.r.*.kind", "parse.r.*.off", "parse.r.*.msg", "cmpstr.r.side", "cmpstr.r.origin", "cmpstr.r.kind", "cmpstr.r.off", "cmpstr.r.msg",
     # likewise drift-only: block size relation between objects, array-level observers, error texts
